@@ -1,0 +1,58 @@
+//go:build verif
+
+// Verification hooks for the session ticket store: compiled only with -tags verif.
+// They call the existing unexported store methods; no behaviour is changed.
+
+package scramblesuit
+
+import (
+	"fmt"
+	"net"
+	"sort"
+
+	"gitlab.com/yawning/obfs4.git/transports/base"
+)
+
+type verifAddr string
+
+func (a verifAddr) Network() string { return "tcp" }
+func (a verifAddr) String() string  { return string(a) }
+
+func verifStore(cf base.ClientFactory) (*ssTicketStore, error) {
+	f, ok := cf.(*ssClientFactory)
+	if !ok {
+		return nil, fmt.Errorf("not a scramblesuit client factory")
+	}
+	return f.ticketStore, nil
+}
+
+// VerifStoreTicket hands a raw NewSessionTicket payload (key | ticket) for addr to the
+// factory's ticket store exactly as the packet decoder does on receipt of a
+// pktNewTicket packet (ssTicketStore.storeTicket).
+func VerifStoreTicket(cf base.ClientFactory, addr string, raw []byte) error {
+	s, err := verifStore(cf)
+	if err != nil {
+		return err
+	}
+	s.storeTicket(verifAddr(addr), raw)
+	return nil
+}
+
+// VerifTicketAddrs returns the sorted peer addresses the factory's ticket store
+// currently holds a ticket for (read-only).
+func VerifTicketAddrs(cf base.ClientFactory) ([]string, error) {
+	s, err := verifStore(cf)
+	if err != nil {
+		return nil, err
+	}
+	s.Lock()
+	defer s.Unlock()
+	addrs := make([]string, 0, len(s.store))
+	for k := range s.store {
+		addrs = append(addrs, k)
+	}
+	sort.Strings(addrs)
+	return addrs, nil
+}
+
+var _ net.Addr = verifAddr("")
